@@ -86,16 +86,18 @@ func (rc *runCase) reattach(t *rapid.T, prop string, survivors []*simrun.Job) {
 	// the abandoned Pipestance object stands for a dead process: let the
 	// goroutines it started (asynchronous VDR passes) run out before anything
 	// else touches the directory
-	waited := 0
-	for ; waited < 150; waited++ {
+	waited, stable := 0, 0
+	for ; waited < 150 && stable < 3; waited++ {
 		runtime.Gosched()
 		time.Sleep(time.Millisecond)
 		n := runtime.NumGoroutine()
-		if n < minGoroutines {
-			minGoroutines = n
-		}
-		if waited >= 2 && n <= minGoroutines {
-			break
+		switch {
+		case n < minGoroutines:
+			minGoroutines, stable = n, 0
+		case n == minGoroutines:
+			stable++
+		default:
+			stable = 0
 		}
 	}
 	stats.Count(prop, "reattach_wait_ms", int64(waited))
